@@ -128,6 +128,9 @@ class Check(common.Check):
         ntimes, ncont = rng.randint(1, 4), rng.randint(1, 3)
         n = rng.choice([rng.randint(0, 5), rng.randint(3, 25)])
         adds = [[8 * rng.randrange(ntimes), rng.randrange(ncont)] for _ in range(n)]
+        # negative bundle times count as "now" (0 from the main thread): after the entries already at 0
+        for _ in range(rng.choice([0, 0, 1, 2])):
+            adds.insert(rng.randint(0, len(adds)), [-8 * rng.choice([1, 2]), rng.randrange(ncont)])
         # bundles the encoder refuses (content -1), often later than everything accepted
         for _ in range(rng.choice([0, 0, 1, 2])):
             adds.insert(rng.randint(0, len(adds)), [8 * rng.choice([0, ntimes, ntimes + 3]), -1])
@@ -281,7 +284,7 @@ class Check(common.Check):
                 lines.append('ppar ' + ' '.join(','.join(str(d) for d in ds) if ds else '-' for ds in ops['rem']))
             elif isinstance(ops, dict) and ops.get('kind') == 'score':
                 base = getattr(self, '_score_base', {}).get(ci, 0)
-                lines.append('score 0 ' + ' '.join(str(t) for t, c in ops['adds'] if c >= 0) + f' {ops["tail"] + base}')
+                lines.append('score 0 ' + ' '.join(str(max(t, 0)) for t, c in ops['adds'] if c >= 0) + f' {ops["tail"] + base}')
             elif isinstance(ops, dict):
                 lines.extend(f'add {p} {t}' for p, t in ops['adds'])
                 lines.append('drain ' + ' '.join(
@@ -441,7 +444,7 @@ class Check(common.Check):
             return {'what': f'score not produced: {out}', 'signature': 'score:error'}
         base = int(out[1].split()[1])
         out = out[:1]
-        entries = [(0, 'root')] + [(t, str(c)) for t, c in case['adds'] if c >= 0] + [(case['tail'] + base, 'tail')]
+        entries = [(0, 'root')] + [(max(t, 0), str(c)) for t, c in case['adds'] if c >= 0] + [(case['tail'] + base, 'tail')]
         exp = 'listing [' + ','.join(f'({t},{c})' for t, c in sorted(entries, key=lambda e: e[0])) + ']'   # stable
         exp += f' duration {max(t for t, _ in entries[:-1])} {max(t for t, _ in entries)} {max(t for t, _ in entries)}'
         exp += f' refused {sum(1 for _, c in case["adds"] if c < 0)}'
